@@ -141,3 +141,23 @@ def c15_sig3(big, idx, opt="d"):  # type: ignore[no-untyped-def]
 
 def c15_sig5(a, b, c="c0", d="d0", e="e0"):  # type: ignore[no-untyped-def]
     return f"{a}|{b}|{c}|{d}|{e}"
+
+
+# ---- C03: a body that counts its completed executions per invocation ------------------------------
+C03_DONE: dict = {}
+
+
+def c03_body(mode: str) -> str:
+    from pynenc import context
+    from pynenc.exceptions import RetryError
+
+    app = context.get_current_app()
+    inv = context.get_dist_invocation_context(app.app_id)
+    try:
+        if mode == "fail":
+            raise ProgError("boom")
+        if mode == "retry" and inv.num_retries == 0:
+            raise RetryError("again")
+        return mode
+    finally:
+        C03_DONE[inv.invocation_id] = C03_DONE.get(inv.invocation_id, 0) + 1
